@@ -144,7 +144,7 @@ def constraint_programs(n, seed):
     for i in range(n):
         stmts = []
         for _ in range(rnd.choice([2, 3, 3, 4])):
-            k = rnd.choice(['lit', 'or', 'xor', 'rel', 'rel', 'rel', 'disj'])
+            k = rnd.choice(['lit', 'or', 'xor', 'rel', 'rel', 'rel', 'disj', 'relor'])
             st = {'k': k, 'b': rnd.randint(0, 1), 'pos': rnd.randint(0, 1), 'b2': rnd.randint(0, 1), 'pos2': rnd.randint(0, 1),
                   'r': _rel(rnd), 'r2': _rel(rnd)}
             stmts.append(st)
@@ -190,6 +190,10 @@ def render_constraints(p, names=('b0', 'b1', 'x0', 'x1'), order=None, tautology=
                 body.append('%s %s %s;' % (l1, op, l2))
         elif st['k'] == 'rel':
             body.append(render_rel(st['r'], names) + ';')
+        elif st['k'] == 'relor':
+            # == and != bind weaker than | (the parser's precedence levels): such a relation is parenthesised
+            rr = render_rel(st['r'], names)
+            body.append(('(%s) | %s;' if st['r']['rel'] in ('eq', 'neq') else '%s | %s;') % (rr, lit(st['b'], st['pos'])))
         else:
             body.append('{ %s; } or { %s; }' % (render_rel(st['r'], names), render_rel(st['r2'], names)))
     if order:
@@ -210,3 +214,33 @@ def decide_constraints(progs, rd):
     if not os.path.exists(out) or 'DECIDED' not in r['out']:
         raise vlib.CheckError('ConstraintSat failed:\n' + r['out'][-3000:])
     return {j['id']: j['sat'] for j in map(json.loads, open(out))}, r
+
+
+def tight_family(first_id):
+    """C02: bounds that meet exactly (or miss by one) through a relation between the two reals, the relation optionally
+    guarded by a boolean that another statement falsifies, in every statement order: propagation must not lose the
+    solutions on the boundary. Returns (programs, classes): every program is decided by ConstraintSat; the orders of one
+    combination form an equivalence class."""
+    import itertools
+    progs, classes = [], {}
+    pid = first_id
+    def st(k, **kw):
+        d = {'k': k, 'b': 0, 'pos': 1, 'b2': 0, 'pos2': 1, 'r': {'rel': 'leq', 'a0': 1, 'a1': 0, 'c': 0}, 'r2': {'rel': 'leq', 'a0': 1, 'a1': 0, 'c': 0}}
+        d.update(kw)
+        return d
+    for rel in ('leq', 'lt', 'geq', 'gt'):
+        for delta in (-1, 0, 1):
+            for guarded in (False, True):
+                lo_first = rel in ('leq', 'lt')                 # x0 rel x1: x0 bounded below, x1 bounded above (or the converse)
+                s_lo = st('rel', r={'rel': 'geq' if lo_first else 'leq', 'a0': 1, 'a1': 0, 'c': 2})
+                s_hi = st('rel', r={'rel': 'leq' if lo_first else 'geq', 'a0': 0, 'a1': 1, 'c': 2 + (delta if lo_first else -delta)})
+                link = {'rel': rel, 'a0': 1, 'a1': -1, 'c': 0}
+                stmts = [s_lo, st('relor', r=link, b=0, pos=1) if guarded else st('rel', r=link), s_hi]
+                if guarded:
+                    stmts.append(st('lit', b=0, pos=0))
+                cls = 'tight_%s_%+d_%s' % (rel, delta, 'g' if guarded else 'u')
+                for order in itertools.permutations(range(len(stmts))):
+                    progs.append({'id': pid, 'stmts': [stmts[i] for i in order]})
+                    classes.setdefault(cls, []).append(pid)
+                    pid += 1
+    return progs, classes
